@@ -165,6 +165,27 @@ CHECKS = [
           'input pairs and fee equal the reference; after two quiet refreshes the exact C08 view is proved.',
   'note': 'As C08; 1 (quick) / 2 (thorough) world changes; heights only rise during a refresh.',
   'design_ref': 'DESIGN.md section 4, C09'},
+ {'id': 'C07',
+  'technique': 'symx gate scheduler: real components on an asyncio loop, bounded schedule deviations solver-enumerated',
+  'text': 'The real DB, BlockProcessor, Notifications, MemPool, SessionManager and ElectrumX sessions are wired as '
+          'Controller.serve wires them and driven by a gate scheduler (every daemon reply, worker-thread job start, '
+          'thread-result delivery, block fetch and sleep is a gate); scripted stories of blocks, natural and forced '
+          'reorgs, mempool arrivals / evictions / confirmations and subscriptions run with FIFO scheduling plus 1 '
+          '(quick) / 2 (thorough) deviations chosen by the solver (postpone a gate for a full timer round, fire a timer '
+          'early, inject the next event early); at quiescence every subscriber holds the reference status and tip, no '
+          'header notification preceded its block, no task died and the index equals the reference.',
+  'note': 'Chain content concrete; the schedule is the symbolic input (choice variables decided by z3, counterexample '
+          'schedules replayed natively on real LevelDB).  Stubs: daemon, prefetch/block files, worker threads, sleeps, '
+          'mempool tx parser, session transport.',
+  'design_ref': 'DESIGN.md section 4, C07'},
+ {'id': 'C10',
+  'technique': 'symx gate scheduler: real components on an asyncio loop, bounded schedule deviations solver-enumerated',
+  'text': 'The C07 machinery with client queries (history, balance, listunspent, mempool, id-from-position) placed '
+          'before, inside (right after backup_block returns) and after reorg windows or racing a block; at quiescence '
+          'every query for the listed script-hash classes and every (height, position) is repeated and proved equal '
+          'to the reference on the daemon\'s chain and mempool.',
+  'note': 'As C07.',
+  'design_ref': 'DESIGN.md section 4, C10'},
 ]
 _TODO = 'check not built yet in this revision (planned, see DESIGN.md section 4); no claim is made'
-NOT_APPLICABLE = [{'property_id': f'C{n:02d}', 'reason': _TODO} for n in range(1, 20) if n not in (1, 2, 3, 4, 5, 8, 9, 12, 13, 14, 15, 16, 17, 18, 19)]
+NOT_APPLICABLE = [{'property_id': f'C{n:02d}', 'reason': _TODO} for n in range(1, 20) if n not in (1, 2, 3, 4, 5, 7, 8, 9, 10, 12, 13, 14, 15, 16, 17, 18, 19)]
